@@ -32,8 +32,8 @@ def bounds(tier):
 
 def grammar():
     atoms = {
-        'N': [tf('x'), alias_field('A', 'x'), ('field', tf('m'), 'f'), num(0), num(1), ('lit', '2.5', 2.5), ('lit', '1e3', 1000.0), ('lit', 'PI', absyn.CONSTANTS['PI']), ('lit', 'INF', float('inf')), ('lit', 'NAN', float('nan')), ('lit', 'E', absyn.CONSTANTS['E'])],
-        'B': [tf('p'), TRUE, FALSE],
+        'N': [tf('x'), tf('_n'), alias_field('A', 'x'), ('field', tf('m'), 'f'), num(0), num(1), ('lit', '2.5', 2.5), ('lit', '1e3', 1000.0), ('lit', 'PI', absyn.CONSTANTS['PI']), ('lit', 'INF', float('inf')), ('lit', 'NAN', float('nan')), ('lit', 'E', absyn.CONSTANTS['E'])],
+        'B': [tf('p'), tf('_ready'), TRUE, FALSE],
         'S': [tf('s'), ('lit', '"a"', '"a"'), ('lit', '""', '""')],
         'A': [tf('xs')],
     }
@@ -197,6 +197,30 @@ def run(unit):
                 r.count('states')
                 for pk_, detail in roundtrip('prop', obj, text, r):
                     r.violation(f'{pk_} [property with a vacuous predicate]', {'kind': 'prop', 'text': text}, detail, size=len(text))
+        # time bounds with many significant digits, in both units
+        for num_text in ('0.1234567', '1000001', '86400.25', '3600.001', '3600.002', '12345678.9', '0.000123456789', '1.0000001', '999999.9999', '31536000', '1e-7', '123456789e-12', '0.30000000000000004'):
+            for u in ('s', 'ms'):
+                text = f'globally: no a within {num_text} {u}'
+                r.count('evaluations')
+                st, obj = impl.try_parse('prop', text)
+                if st != 'ok':
+                    r.notes['rejected:' + st] += 1
+                    continue
+                r.count('states')
+                for pk_, detail in roundtrip('prop', obj, text, r):
+                    r.violation(f'{pk_} [time bound]', {'kind': 'prop', 'text': text}, detail, size=len(num_text) + 1000)
+        # an event that uses its own alias: as the whole message, in indices, ranges, nested accessors
+        for pred in ('roll(@M) > 0', 'yaw(@M) > @M.x', 'xs[@M.i] > @M.xs[0]', 'x in ![0 to @M.lim]', 'forall i in @M.xs: @i > @M.k', 'pitch(@M) < abs(@M.m.f) and not @M.p'):
+            for tmpl in ('globally: no a as M { %s }', 'after a as M { %s }: some z', 'globally: (a as M { %s } or b) causes z'):
+                text = tmpl % pred
+                r.count('evaluations')
+                st, obj = impl.try_parse('prop', text)
+                if st != 'ok':
+                    r.notes['rejected:' + st] += 1
+                    continue
+                r.count('states')
+                for pk_, detail in roundtrip('prop', obj, text, r):
+                    r.violation(f'{pk_} [property with the whole message as a value]' if 'roll' in pred or 'yaw' in pred or 'pitch' in pred else f'{pk_} [own alias]', {'kind': 'prop', 'text': text}, detail, size=len(text))
         pool = [
             'globally: no a', 'after s as S: some b {x = @S.x} within 2 s', 'until (e or e2): (g or h) causes b', 'after s until e: b requires g within 100 ms',
             '# id: q\nglobally: g forbids (b or c or d)', 'globally: some b {forall i in xs: @i > 0}',
